@@ -142,10 +142,11 @@ def build_flavour(name, jobs=16):
         lk.close()
 
 
-def build_cfg(btype, kind, cxx="g++", jobs=4):
+def build_cfg(btype, kind, cxx="g++", jobs=4, guard=True):
     """Build the library with the repository's own CMake in one configuration and link the
-    (uninstrumented) driver against it.  Returns the driver path."""
-    name = "cfg-%s-%s-%s" % (btype, kind, cxx.replace("+", "p"))
+    (uninstrumented) driver against it.  Returns the driver path.  guard=False: the library is compiled
+    WITHOUT the hook guard, i.e. exactly as shipped (no step budgets there: not for damaged inputs)."""
+    name = "cfg-%s-%s-%s%s" % (btype, kind, cxx.replace("+", "p"), "" if guard else "-noguard")
     key = _sha_files(repo_files() + driver_sources() + driver_headers(), extra=name)
     out = os.path.join(BUILD_ROOT, "%s-%s" % (name, key))
     exe = os.path.join(out, "c3d_driver")
@@ -160,7 +161,7 @@ def build_cfg(btype, kind, cxx="g++", jobs=4):
                   "-DCMAKE_BUILD_TYPE=" + btype,
                   "-DBUILD_SHARED_LIBS=" + ("TRUE" if kind == "shared" else "FALSE"),
                   "-DCMAKE_CXX_COMPILER=" + cxx,
-                  "-DCMAKE_CXX_FLAGS=" + GUARD + " -w",
+                  "-DCMAKE_CXX_FLAGS=" + (GUARD + " " if guard else "") + "-w",
                   "-DBUILD_EXAMPLE=FALSE", "-DBUILD_TESTS=OFF", "-DBUILD_DOC=OFF",
                   "-DBINDER_PYTHON3=OFF", "-DBINDER_MATLAB=OFF"])
         if p.returncode != 0:
